@@ -6,5 +6,5 @@ CONSTANTS
   Defects = {"NewDropsBuffered"}
   EmitCases = FALSE
 SPECIFICATION Spec
-INVARIANTS TypeOK BytesIntact OneReply NoLoss HandedOver Released DecodedBy
+INVARIANTS TypeOK BytesIntact OneReply NoLoss HandedOver Released DecodedBy Adopted
 CHECK_DEADLOCK FALSE
